@@ -39,6 +39,14 @@ claimed = {
    note=(TB + "Assumed (preconditions = well-formed file): section indices valid, a symbol lies inside its section, at most one 64-byte <kernel>.kd symbol, register-count symbols <= 4096; "
          "strings are uninterpreted with cancellative concatenation; debug/elf itself is outside the verified code."),
    design="5 (C13)", technique="deductive verification: WP-style VC generation over go/ssa + SMT (byte-layout contracts, loop invariants, intermediate assertion)"),
+ "C08": dict(
+   text=("Under contract for all geometries (mathematical integers with an overflow obligation on every + - *): gridBuilderImpl.NextWG without a filter returns work-group coordinates in x-fastest order, "
+         "each once, with current sizes equal to the clipped sizes (>= 1) and nil exactly when the cursor has left the grid; countWG without a filter equals ceil(X/wx)*ceil(Y/wy)*ceil(Z/wz); "
+         "Driver.distributeWGToGPUs returns a non-decreasing range table starting at 0 and ending at or beyond the number of work-groups, and the per-GPU filter closure accepts exactly "
+         "the row-major flattened ids of its range. Not yet under contract: the filtered count/enumeration, spawnWorkItems/formWavefronts (functional), lane-ID register initialisation in both modes."),
+   note=(TB + "Assumed: fewer than 2^31 work-groups per dispatch, CU counts <= 65536, at most 4096 unified GPUs; NewWorkGroup and formWavefronts enter NextWG through trusted frame-only contracts; "
+         "the explicit guard 'not all wg allocated' is kept as a run-time check (its unreachability needs a prefix-sum argument). Suspect not yet decided: formWavefronts for partial work-groups whose row pitch does not divide 64 (DESIGN.md)."),
+   design="5 (C08)", technique="deductive verification: WP-style VC generation over go/ssa + SMT (integer mode with overflow obligations, loop invariants)"),
  "C11": dict(
    text=("memRangeOverlap (the predicate deciding whether a copy must flush dirty buffers) is proved equivalent to interval intersection for all "
          "non-empty ranges over the full uint64 domain. The splitting loops and completion bookkeeping are not yet under contract."),
